@@ -1,4 +1,4 @@
-\* generated by mkcfg_rm.sh
+\* generated by ResourceManager_mkcfg.sh
 SPECIFICATION Spec
 CONSTANTS
   Enc = {"e1","e2"}
